@@ -99,6 +99,14 @@ def run(ctx):
             ot = gen.random_bin_shape(rng, rng.randint(4, 8 if thorough else 7))
             st = gen.random_bin_shape(rng, rng.randint(2, 6))
             syn, _ = sc.random_syn(rng, "un", ot, rng.randint(2, 4))
+            if i % 3 == 0:
+                # staircase: a caterpillar whose leaves carry one or two of four families, so that
+                # families are gained at successive levels (nested INHERIT nodes in the decoder)
+                ot = (0,)
+                for _ in range(rng.randint(4, 6)):
+                    ot = gen.join(ot, (0,)) if i % 2 else gen.join((0,), ot)
+                syn = [tuple(sorted(rng.sample((1, 2, 3, 4), rng.choice((1, 1, 2))))) if u in proj.leaves_of(ot) else ()
+                       for u in range(1, len(ot) + 1)]
         else:
             ot = gen.random_bin_shape(rng, rng.randint(3, 5))
             st = gen.random_bin_shape(rng, rng.randint(2, 4))
